@@ -71,15 +71,15 @@ Proof. eexists. eexists. split; vm_compute; reflexivity. Qed.
    max_prediction frames past the last confirmed frame (past frame 0 while nothing is confirmed),
    and the last confirmed frame never exceeds the frames held from any player. *)
 Theorem C04_window_invariant_in_space :
-  forall (predict : Z -> Z) (n w d : Z) (kinds : list pkind) (eps : list (list Z)) (ops : list sop) p outs,
+  forall (predict : Z -> Z) (n w d : Z) (kinds : list pkind) (eps : list (list Z)) (nspec : nat) (ops : list sop) p outs,
   1 <= w -> 0 <= d -> w + d + 3 <= INPUT_QUEUE_LENGTH -> 0 < n -> Z.of_nat (length kinds) = n -> players_only kinds ->
-  srun_in predict (session_start n w false d kinds eps 0) ops = Ok (p, outs) ->
+  srun_in predict (session_start n w false d kinds eps nspec) ops = Ok (p, outs) ->
   s_current (ps_sync p) <= Z.max 0 (s_last_confirmed (ps_sync p)) + w /\
   Forall (fun st => s_last_confirmed (ps_sync p) <= cs_last st) (ps_status p).
 Proof.
-  intros predict n w d kinds eps ops p outs Hw Hd Hcap Hn Hlen Hpl H.
-  destruct (run_in_space predict ops _ _ (game0 w) w d (QS_start n w d kinds eps Hw Hd Hcap Hn Hlen Hpl)
-              (JI_start n w d kinds eps 0 ltac:(lia))) as [E|(p' & outs' & gs & g & E1 & _ & _ & HQS & _)]; [congruence|].
+  intros predict n w d kinds eps nspec ops p outs Hw Hd Hcap Hn Hlen Hpl H.
+  destruct (run_in_space predict ops _ _ (game0 w) w d (QS_start n w d kinds eps nspec Hw Hd Hcap Hn Hlen Hpl)
+              (JI_start n w d kinds eps nspec ltac:(lia))) as [E|(p' & outs' & gs & g & E1 & _ & _ & HQS & _)]; [congruence|].
   rewrite H in E1. injection E1 as <- <-.
   split; [destruct (qs_frames _ _ _ _ HQS) as (_ & _ & X); exact X|].
   pose proof (qs_qs _ _ _ _ HQS) as HQ. pose proof (qs_last _ _ _ _ HQS) as HL.
